@@ -98,3 +98,13 @@ Theorem C14_complete :
          /\ tmpl_err_ok raw e /\ cause_at raw e /\ dup_ok raw e /\ brace_unmatched raw e.
 Proof. exact parse_err_complete. Qed.
 Print Assumptions C14_complete.
+
+(* ---- which TemplateError each parser function can construct, in source order, REGENERATED from src/parser.rs on this
+        run (Gen/ParserErrors.v): the seventeen sites of the parser model, every one of the thirteen variants, no other ---- *)
+From WF Require Import Base.Bytes Check.Tokens Gen.ParserErrors Proofs.ParserErrorsP.
+Theorem C14_parser_error_sites_are_the_models :
+  pe_eqb gen_parser_errors expected_parser_errors = true
+  /\ forallb (fun v => existsb (fun fv : bytes * bytes => beqb (snd fv) (w v)) gen_parser_errors) thirteen_variants = true
+  /\ forallb (fun fv : bytes * bytes => existsb (fun v => beqb (snd fv) (w v)) thirteen_variants) gen_parser_errors = true.
+Proof. exact parser_error_sites. Qed.
+Print Assumptions C14_parser_error_sites_are_the_models.
